@@ -5,7 +5,8 @@ header functions and every fallback body, parametrised by the A_HAVE_C* binding)
 Tie 1 (structure): the SAME Gallina terms instantiated with binary64 primitive floats (vm_compute), libm replaced on both
         sides by identical substitute functions (--wrap), compared bit for bit with complex.c built from the current
         tree in the all-fallback, all-libm and mixed configurations.
-Tie 2 (accuracy; no theorem carries floating-point rounding - partial): the C built against the real libm, in the
+Tie 2 (accuracy; rounding theorems exist for the field arithmetic and the modulus only, coq/C10/CxRound*.v - the
+        transcendental functions' accuracy is sampled, partial): the C built against the real libm, in the
         all-libm / all-fallback / complex-fallback configurations, double and float (thorough: every one-switch build),
         compared at points of all quadrants, both axes, tiny..large magnitudes with a 45-digit mpmath oracle
         (harness/C10/oracle.py): |out - exact| <= K eps max(1,cond) |exact|, K = 16.  This oracle is the search oracle:
@@ -28,14 +29,34 @@ META = {
             "within 2^-53 relative of their exact values, forward trig/hyperbolic fallbacks equal their exponential definitions, "
             "reciprocal and inverse families have the documented structure, atan/asin/acos fallback residual identities. "
             "Tie 1: bit-exact binary64 run of the same terms vs the C (libm substituted on both sides) in fallback, libm and mixed "
-            "configurations. Tie 2: sampled accuracy of the real builds (double/float, libm/fallback) against a 45-digit oracle.",
-    "note": "Partial: 'within a small multiple of machine precision for all finite arguments' is established at the sampled "
-            "points only (K=16); floating-point rounding is not part of any theorem. Trusted: Coq kernel/vm_compute with "
+            "configurations. Tie 2: sampled accuracy of the real builds (double/float, libm/fallback) against a 45-digit oracle. "
+            "Rounding model (coq/C10/CxRound.v, CxRound64.v; 36 theorems c10_*_rounding_* and companions): forward error bounds of the FIELD "
+            "arithmetic for the same model terms run at a rounded-real instance (every + - * / followed by rnd) for EVERY rnd with "
+            "|rnd v - v| <= eps|v| + eta (standard model with gradual underflow; IEEE binary64 round-to-nearest-even is an instance "
+            "by Flocq, eps=2^-53, eta=2^-1075): add/sub/add_real/add_imag/sub_real/sub_imag/mul_real/mul_imag/div_real/div_imag "
+            "componentwise eps|exact|+eta (copied component exact; neg, conj exact); mul componentwise (2eps+eps^2)(|ac|+|bd|)+"
+            "(3+2eps)eta and normwise sqrt2((2eps+eps^2)|x||z|+(3+2eps)eta); abs2 likewise; inv |fl-1/z| <= 11eps/|z|+2eta(1+1/|z|); "
+            "div componentwise 14eps(|ac|+|bd|)/|z|^2+eta(5+2|x/z|) and normwise |fl-x/z| <= 19eps|x/z|+eta(7+3|x/z|), for any "
+            "modulus function accurate to 2eps|z| at z (covers a 1-ulp libm hypot and the correctly rounded one), under rnd 1=1, "
+            "eps<=1/64, z<>0 and the range hypotheses eta<=eps|z|, eta|z|<=eps (2^-1022<=|z|<=2^1022 in binary64); general form "
+            "for a modulus of any relative accuracy theta<=1/2; with the fallback modulus a_real_norm2 (the rounded C11 body, "
+            "accuracy from C11's norm2 theorem) the constants are 26 (inv), 29/41 (div), eps<=1/128; modulus: eps|z|+eta when "
+            "correctly rounded, 7/2(eps+eta)|z|+eta for the fallback; binary64 corollaries; non-vacuity theorems (identity "
+            "rounding, the inexact rounding v->9/8v where the mul bound is attained, binary64 at z=3+4i).",
+    "note": "Partial: 'within a small multiple of machine precision for all finite arguments' is a theorem only for the field "
+            "arithmetic (add/sub/mul/div/inv, scalar forms, abs2, modulus) and only in the rounded-real model: overflow is outside "
+            "the model (rnd is unbounded), div/inv need |z| in [eta/eps, eps/eta] and rnd 1=1, the libm hypot enters as a "
+            "hypothesis (accurate to 2eps at the argument) or as the idealised correctly rounded function of Rnd_ops, the "
+            "constants (11/14/19, fallback 26/29/41) are explicit but not sharp, and the step from the rounded-real term to the "
+            "binary64 run of the C is the per-operation Flocq link of Common/RoundFlocq.v, not composed along the function. For "
+            "sqrt/exp/log/pow and all trigonometric/hyperbolic functions and inverses the accuracy clause is established at the "
+            "sampled points only (K=16) and no theorem carries rounding. Trusted: Coq kernel/vm_compute with "
             "primitive floats, real-number axioms listed by Print Assumptions, the 'same term, different instance' argument, the "
             "hand transcription (validated bit for bit on the generated cases only), mpmath as reference, R-instance semantics of "
             "libm names (ROps.v, CxReal.v).",
     "technique": "Rocq proof over R (field/nra/Coquelicot/Interval) + bit-exact primitive-float model vs C correspondence + "
-                 "high-precision sampled accuracy oracle",
+                 "high-precision sampled accuracy oracle + forward rounding-error bounds in the standard model (rounded-real "
+                 "instance, Flocq binary64 instance) for the field arithmetic",
 }
 
 H = vlib.VERIF / "harness" / "C10"
